@@ -87,11 +87,12 @@ class udp(packet_base):
 
         self.hdr_len = udp.MIN_LEN
         self.payload_len = self.len - self.hdr_len
-        self.parsed = True
 
         if self.len < udp.MIN_LEN:
             self.msg('(udp parse) warning invalid UDP len %u' % self.len)
             return
+
+        self.parsed = True
 
         #TODO: DHCPv6, etc.
 
@@ -114,7 +115,7 @@ class udp(packet_base):
             self.next = vxlan(raw=raw[udp.MIN_LEN:],prev=self)
         elif dlen < self.len:
             self.msg('(udp parse) warning UDP packet data shorter than UDP len: %u < %u' % (dlen, self.len))
-            return
+            self.payload = raw[udp.MIN_LEN:] # Keep what is there
         else:
             self.payload = raw[udp.MIN_LEN:]
 
